@@ -704,3 +704,170 @@ pub fn render_set(templates: &[(String, String)], entry: &str, ctx: &tera::Conte
 pub fn first_line(s: &str) -> String {
     s.lines().next().unwrap_or("").chars().take(200).collect()
 }
+
+// ---------------------------------------------------------------------------------------------
+// crash-isolated families: the binary re-executes itself as a worker (`tvh <ID> --worker ...`)
+
+pub struct WorkerArgs {
+    pub family: String,
+    pub shard: u64,
+    pub nshards: u64,
+    pub seed: u64,
+    pub tier: Tier,
+    /// write every case to this file before executing it (used to pinpoint a crashing case)
+    pub trace: Option<PathBuf>,
+    pub out: PathBuf,
+}
+impl WorkerArgs {
+    pub fn parse(args: &[String]) -> Option<WorkerArgs> {
+        let mut it = args.iter();
+        let family = it.next()?.clone();
+        let shard = it.next()?.parse().ok()?;
+        let nshards = it.next()?.parse().ok()?;
+        let seed = it.next()?.parse().ok()?;
+        let tier = if it.next()? == "thorough" { Tier::Thorough } else { Tier::Quick };
+        let out = PathBuf::from(it.next()?);
+        let trace = it.next().map(PathBuf::from);
+        Some(WorkerArgs { family, shard, nshards, seed, tier, trace, out })
+    }
+    /// record the case about to be executed (only in trace mode)
+    pub fn trace_case(&self, case: impl FnOnce() -> J) {
+        if let Some(p) = &self.trace {
+            let _ = std::fs::write(p, serde_json::to_string(&case()).unwrap_or_default());
+        }
+    }
+}
+
+/// What a worker reports back through its output file.
+pub fn write_worker_result(out: &Path, l: &Local, fails: &[Fail]) {
+    let j = json!({
+        "evals": l.evals,
+        "labels": l.labels,
+        "samples": l.samples,
+        "excluded": l.excluded_known,
+        "discarded": l.discarded,
+        "nontrivial": l.nontrivial.iter().map(|h| format!("{:x}", h)).collect::<Vec<_>>(),
+        "fails": fails.iter().map(|f| json!({"signature": f.signature, "what": f.what, "case": f.case})).collect::<Vec<_>>(),
+    });
+    let _ = std::fs::write(out, j.to_string());
+}
+
+pub enum WorkerEnd {
+    /// worker finished and wrote its result file
+    Done,
+    /// died by a signal / abnormal exit code: (description, last traced case if any)
+    Crashed(String, Option<J>),
+    TimedOut(Option<J>),
+}
+
+fn spawn_worker(prop: &str, family: &str, shard: u64, nshards: u64, seed: u64, tier: Tier, out: &Path, trace: Option<&Path>, timeout_s: u64) -> WorkerEnd {
+    use std::process::{Command, Stdio};
+    let exe = std::env::current_exe().expect("current exe");
+    let mut cmd = Command::new(exe);
+    cmd.arg(prop).arg("--worker").arg(family).arg(shard.to_string()).arg(nshards.to_string()).arg(seed.to_string()).arg(tier.name()).arg(out);
+    if let Some(t) = trace {
+        cmd.arg(t);
+    }
+    cmd.stdout(Stdio::null()).stderr(Stdio::null());
+    let _ = std::fs::remove_file(out);
+    let mut child = match cmd.spawn() {
+        Ok(c) => c,
+        Err(e) => return WorkerEnd::Crashed(format!("cannot spawn worker: {e}"), None),
+    };
+    let t0 = Instant::now();
+    let traced = |trace: Option<&Path>| trace.and_then(|t| std::fs::read_to_string(t).ok()).and_then(|s| serde_json::from_str::<J>(&s).ok());
+    loop {
+        match child.try_wait() {
+            Ok(Some(st)) => {
+                use std::os::unix::process::ExitStatusExt;
+                if st.success() && out.exists() {
+                    return WorkerEnd::Done;
+                }
+                let desc = match (st.signal(), st.code()) {
+                    (Some(s), _) => format!("killed by signal {s}{}", if s == 11 || s == 6 { " (stack overflow / abort)" } else { "" }),
+                    (_, Some(c)) => format!("exit code {c}"),
+                    _ => "unknown exit".to_string(),
+                };
+                return WorkerEnd::Crashed(desc, traced(trace));
+            }
+            Ok(None) => {
+                if t0.elapsed().as_secs() > timeout_s {
+                    let _ = child.kill();
+                    let _ = child.wait();
+                    return WorkerEnd::TimedOut(traced(trace));
+                }
+                std::thread::sleep(std::time::Duration::from_millis(20));
+            }
+            Err(e) => return WorkerEnd::Crashed(format!("wait failed: {e}"), None),
+        }
+    }
+}
+
+/// Runs `family` in `nshards` worker subprocesses (in parallel). A shard that crashes or times out is
+/// re-run alone in trace mode so that the offending case is known; `on_abnormal` turns it into a
+/// violation / known finding / inconclusive note.
+pub fn run_in_workers(rep: &Report, family: &str, nshards: u64, timeout_s: u64, on_abnormal: impl Fn(&Report, u64, &str, Option<J>, bool) + Sync) {
+    let t0 = Instant::now();
+    let dir = Path::new(VERIF_DIR).join("work");
+    let _ = std::fs::create_dir_all(&dir);
+    let par = n_workers() as u64;
+    let next = AtomicU64::new(0);
+    let total = AtomicU64::new(0);
+    std::thread::scope(|sc| {
+        for _ in 0..par.min(nshards) {
+            let next = &next;
+            let total = &total;
+            let dir = &dir;
+            let on_abnormal = &on_abnormal;
+            sc.spawn(move || loop {
+                let shard = next.fetch_add(1, AO::Relaxed);
+                if shard >= nshards {
+                    break;
+                }
+                let out = dir.join(format!("w_{}_{}_{}_{}.json", rep.prop, family, shard, std::process::id()));
+                let mut end = spawn_worker(&rep.prop, family, shard, nshards, rep.seed, rep.tier, &out, None, timeout_s);
+                if !matches!(end, WorkerEnd::Done) {
+                    // pinpoint: same shard, trace mode (generation is a pure function of the seed)
+                    let tr = dir.join(format!("t_{}_{}_{}_{}.json", rep.prop, family, shard, std::process::id()));
+                    let _ = std::fs::remove_file(&tr);
+                    end = spawn_worker(&rep.prop, family, shard, nshards, rep.seed, rep.tier, &out, Some(&tr), timeout_s * 3);
+                    let _ = std::fs::remove_file(&tr);
+                }
+                match end {
+                    WorkerEnd::Done => {
+                        if let Ok(txt) = std::fs::read_to_string(&out) {
+                            if let Ok(j) = serde_json::from_str::<J>(&txt) {
+                                let mut l = Local::new();
+                                l.evals = j["evals"].as_u64().unwrap_or(0);
+                                total.fetch_add(l.evals, AO::Relaxed);
+                                l.excluded_known = j["excluded"].as_u64().unwrap_or(0);
+                                l.discarded = j["discarded"].as_u64().unwrap_or(0);
+                                if let Some(o) = j["labels"].as_object() {
+                                    for (k, v) in o {
+                                        l.labels.insert(k.clone(), v.as_u64().unwrap_or(0));
+                                    }
+                                }
+                                for h in j["nontrivial"].as_array().cloned().unwrap_or_default() {
+                                    if let Some(h) = h.as_str().and_then(|s| u64::from_str_radix(s, 16).ok()) {
+                                        l.nontrivial.insert(h);
+                                    }
+                                }
+                                l.samples = j["samples"].as_array().cloned().unwrap_or_default();
+                                for f in j["fails"].as_array().cloned().unwrap_or_default() {
+                                    rep.fail(Fail::new(f["signature"].as_str().unwrap_or("?"), f["what"].as_str().unwrap_or(""), f["case"].clone()));
+                                }
+                                rep.merge(l);
+                            } else {
+                                rep.inconclusive(&format!("{family}: worker {shard} wrote an unreadable result"));
+                            }
+                        }
+                    }
+                    WorkerEnd::Crashed(desc, case) => on_abnormal(rep, shard, &desc, case, false),
+                    WorkerEnd::TimedOut(case) => on_abnormal(rep, shard, "timed out", case, true),
+                }
+                let _ = std::fs::remove_file(&out);
+            });
+        }
+    });
+    rep.family_done(family, total.load(AO::Relaxed), t0, false);
+}
